@@ -117,9 +117,9 @@ theorem case_jump (L : Layout) (lp : LoopCtx) (g : GState) (pre post : List GLin
 theorem case_condJump (L : Layout) (c : Cond) (hok : CondOK c = true) (g : GState) (pre post : List GLine) (s : Cpu)
     (m : SrcSt) (l : Lbl) (t : Nat) (hold : Old g pre) (hm : srcOf s = m) (hinv : FlagsInv L g.flags s)
     (hf : findLbl (pre ++ (genCond { g with cIf := g.cIf + 1 } c false l).1 ++ post) l = some t) :
-    (evalCond L m c = true → Jumped L (pre ++ (genCond { g with cIf := g.cIf + 1 } c false l).1 ++ post) pre.length s t m) ∧
+    (evalCond L m c = true → Jumped L (pre ++ (genCond { g with cIf := g.cIf + 1 } c false l).1 ++ post) pre.length s t (condEff L m c)) ∧
     (evalCond L m c = false → Result L (pre ++ (genCond { g with cIf := g.cIf + 1 } c false l).1 ++ post) pre.length s
-        (pre.length + (genCond { g with cIf := g.cIf + 1 } c false l).1.length) m (genCond { g with cIf := g.cIf + 1 } c false l).2.flags) := by
+        (pre.length + (genCond { g with cIf := g.cIf + 1 } c false l).1.length) (condEff L m c) (genCond { g with cIf := g.cIf + 1 } c false l).2.flags) := by
   have hc := genCond_correct L c { g with cIf := g.cIf + 1 } false l hok pre post s t (hold.mono (mono_cIf g)) hinv hf
   obtain ⟨s1, hs1, hm1, hsp1, hf1⟩ := hc
   dsimp only at hs1 hf1
@@ -255,7 +255,7 @@ theorem case_ifThen (L : Layout) (f : Nat) (ih : Correct L f) (c : Cond) (t : SS
     simp only [hb, Bool.false_eq_true, if_false, Bool.false_and] at hs1 hf1
     have e2 : pre ++ cc ++ ct ++ ([GLine.lab ⟨.ifend, g.cIf + 1⟩] ++ post)
         = pre ++ (cc ++ ct ++ [GLine.lab ⟨.ifend, g.cIf + 1⟩]) ++ post := by simp
-    have rt := ih t m out h hfr.2 lp g1 (pre ++ cc) ([GLine.lab ⟨.ifend, g.cIf + 1⟩] ++ post) s1 tc tb hsc hold1 (by rw [hm1, hm]) hf1
+    have rt := ih t (condEff L m c) out h hfr.2 lp g1 (pre ++ cc) ([GLine.lab ⟨.ifend, g.cIf + 1⟩] ++ post) s1 tc tb hsc hold1 (by rw [hm1, hm]) hf1
       (by rw [hct]; dsimp only; rw [e2]; exact hlp)
     rw [hct] at rt
     dsimp only at rt
@@ -361,7 +361,7 @@ theorem case_ifElse (L : Layout) (f : Nat) (ih : Correct L f) (c : Cond) (t e : 
   · simp only [hev, if_true] at h
     have hb : (evalCond L m c != true) = false := by simp [hev]
     simp only [hb, Bool.false_eq_true, if_false, Bool.false_and] at hs1 hf1
-    have rt := ih t m out h hfrt lp g1 (pre ++ cc) ([GLine.jmp ifend, .lab els] ++ ce ++ [.lab ifend] ++ post) s1 tc tb hsc.1 hold1
+    have rt := ih t (condEff L m c) out h hfrt lp g1 (pre ++ cc) ([GLine.jmp ifend, .lab els] ++ ce ++ [.lab ifend] ++ post) s1 tc tb hsc.1 hold1
       (by rw [hm1, hm]) hf1 (by rw [hct]; dsimp only; rw [← w4]; exact hlp.sub (by simp; intro e; exact Or.inl e))
     rw [hct] at rt
     dsimp only at rt
@@ -395,7 +395,7 @@ theorem case_ifElse (L : Layout) (f : Nat) (ih : Correct L f) (c : Cond) (t e : 
       subst hl
       rw [← hels]
       simp [LKind.ctr, GState.ctr, Lbl.idx]; omega
-    have re := ih e m out h hfre lp { g2 with flags := if c.singleExit then g1.flags else none } (pre ++ cc ++ ct ++ [GLine.jmp ifend, .lab els])
+    have re := ih e (condEff L m c) out h hfre lp { g2 with flags := if c.singleExit then g1.flags else none } (pre ++ cc ++ ct ++ [GLine.jmp ifend, .lab els])
       ([GLine.lab ifend] ++ post) s1 tc tb hsc.2 hold2 (by rw [hm1, hm]) hf1'
       (by rw [hce]; dsimp only; rw [← w6]; exact hlp.sub (by simp; intro e; exact Or.inr e))
     rw [hce] at re
@@ -521,10 +521,10 @@ theorem case_while (L : Layout) (f : Nat) (ih : Correct L f) (c : Cond) (b : SSt
       rw [← w1] at this
       exact this.cast (by len_arith) (by len_arith)
     have hs1' : Steps L whole (pre.length + 1) s (pre.length + 1 + cc.length) s1 := hs1.cast (by len_arith) (by len_arith)
-    cases hb1 : sem L f m b with
+    cases hb1 : sem L f (condEff L m c) b with
     | none => simp [hb1] at h
     | some ob =>
-      have rb := ih b m ob hb1 hfrb (some (wl, we)) g1 (pre ++ [GLine.lab wl] ++ cc) ([GLine.jmp wl, .lab we] ++ post) s1
+      have rb := ih b (condEff L m c) ob hb1 hfrb (some (wl, we)) g1 (pre ++ [GLine.lab wl] ++ cc) ([GLine.jmp wl, .lab we] ++ post) s1
         pre.length (pre.length + 1 + cc.length + cb.length + 1) hsc hold1 (by rw [hm1, hm]) hf1
         (by rw [hwl, hwe] at hcb; rw [hcb]; dsimp only; rw [← w3]; exact hlpb)
       rw [hwl, hwe] at hcb
@@ -607,17 +607,17 @@ theorem outcome_facts (L : Layout) : ∀ (f : Nat),
       | ifThen c t =>
         simp only [sem] at h
         split at h
-        · simpa [contHere] using ih1 m t m' h
+        · simpa [contHere] using ih1 _ t m' h
         · simp at h
       | ifElse c t e =>
         simp only [sem] at h
         split at h
-        · simp [contHere, ih1 m t m' h]
-        · simp [contHere, ih1 m e m' h]
+        · simp [contHere, ih1 _ t m' h]
+        · simp [contHere, ih1 _ e m' h]
       | «while» c b =>
         simp only [sem] at h
         split at h
-        · cases hb : sem L f m b with
+        · cases hb : sem L f (condEff L m c) b with
           | none => simp [hb] at h
           | some ob =>
             obtain ⟨eb, m1⟩ := ob
@@ -637,12 +637,12 @@ theorem outcome_facts (L : Layout) : ∀ (f : Nat),
           | norm =>
             simp only [hb] at h
             split at h
-            · exact ih1 m1 _ m' h
+            · exact ih1 _ _ m' h
             · simp at h
           | cont =>
             simp only [hb] at h
             split at h
-            · exact ih1 m1 _ m' h
+            · exact ih1 _ _ m' h
             · simp at h
       | «for» i c u b =>
         simp only [sem] at h
@@ -651,7 +651,7 @@ theorem outcome_facts (L : Layout) : ∀ (f : Nat),
     · intro c u b m o h
       simp only [semFor] at h
       split at h
-      · cases hb : sem L f m b with
+      · cases hb : sem L f (condEff L m c) b with
         | none => simp [hb] at h
         | some ob =>
           obtain ⟨eb, m1⟩ := ob
@@ -788,7 +788,7 @@ theorem case_doWhile (L : Layout) (f : Nat) (ih : Correct L f) (c : Cond) (b : S
   -- from the start of the condition (at `mid`), in a state whose memory is m1
   have hcond : ∀ (m1 : SrcSt) (s1 : Cpu), srcOf s1 = m1 → s1.sp = s.sp →
       FlagsInv L (if contHere b then none else g1.flags) s1 →
-      (if evalCond L m1 c then sem L f m1 (.doWhile b c) else some (.norm, m1)) = some out →
+      (if evalCond L m1 c then sem L f (condEff L m1 c) (.doWhile b c) else some (.norm, condEff L m1 c)) = some out →
       ResultO L whole (pre.length + 1 + cb.length) s1 (pre.length + 1 + cb.length + mid.length + cc.length + 1) tc tb out none := by
     intro m1 s1 hm1 hsp1 hf1 hres
     have hc := genCond_correct L c (if contHere b then { g1 with flags := none } else g1) false dl hokc
@@ -805,7 +805,7 @@ theorem case_doWhile (L : Layout) (f : Nat) (ih : Correct L f) (c : Cond) (b : S
       simp only [hb, if_true] at hs2
       have hs2' : Steps L whole (pre.length + 1 + cb.length + mid.length) s1 pre.length s2 := hs2.cast (by len_arith) rfl
       exact ResultO.after ((hmidsteps s1).trans hs2') hsp2 (by
-        have := hrec' m1 out hres s2 (by rw [hm2, hm1])
+        have := hrec' (condEff L m1 c) out hres s2 (by rw [hm2, hm1])
         obtain ⟨e, mo⟩ := out
         cases e
         · obtain ⟨s3, h3, hm3, hf3, hsp3⟩ := this; exact ⟨s3, h3, hm3, trivial, hsp3⟩
@@ -973,7 +973,7 @@ theorem case_for (L : Layout) (f : Nat) (ihs : ∀ j, j ≤ f → Correct L j) (
       (pre.length + ci.length + c1.length + 1 + cb.length + 1 + cu.length + c2.length) (contHere b) :=
     ⟨fun _ => hfind_fu, hfind_fe⟩
   -- the loop, from the loop label with the condition known to hold, by induction on the fuel of the source loop
-  have hloop : ∀ k, k ≤ f → ∀ (m1 : SrcSt) (s1 : Cpu) (o : Out), srcOf s1 = m1 → evalCond L m1 c = true →
+  have hloop : ∀ k, k ≤ f → ∀ (m1 : SrcSt) (s1 : Cpu) (o : Out), srcOf s1 = condEff L m1 c → evalCond L m1 c = true →
       semFor L c u b k m1 = some o →
       Result L whole (pre.length + ci.length + c1.length) s1
         (pre.length + ci.length + c1.length + 1 + cb.length + 1 + cu.length + c2.length + 1) o.2 none := by
@@ -1031,10 +1031,10 @@ theorem case_for (L : Layout) (f : Nat) (ihs : ∀ j, j ≤ f → Correct L j) (
             simp only [semFor, hev2', Bool.false_eq_true, if_false, Option.some.injEq] at hs'
             subst hs'
             exact ⟨s4, ((h3.trans hs3').trans hs4').trans (hlast s4), by rw [hm4, hmem3], trivial, by rw [hsp4, hsp3]⟩
-      cases hb1 : sem L k m1 b with
+      cases hb1 : sem L k (condEff L m1 c) b with
       | none => simp [hb1] at hs
       | some ob =>
-        have rb := ihs k (by omega) b m1 ob hb1 hfrb (some (fu, fe)) { g2 with flags := none } (pre ++ ci ++ c1 ++ [GLine.lab fl])
+        have rb := ihs k (by omega) b (condEff L m1 c) ob hb1 hfrb (some (fu, fe)) { g2 with flags := none } (pre ++ ci ++ c1 ++ [GLine.lab fl])
           ([GLine.lab fu] ++ cu ++ c2 ++ [GLine.lab fe] ++ post) s1
           (pre.length + ci.length + c1.length + 1 + cb.length) (pre.length + ci.length + c1.length + 1 + cb.length + 1 + cu.length + c2.length)
           hsc hold_b hm1 trivial (by rw [hfu, hfe] at hcb; rw [hcb]; dsimp only; rw [← w3]; exact hlpb)
@@ -1096,7 +1096,7 @@ theorem case_for (L : Layout) (f : Nat) (ihs : ∀ j, j ≤ f → Correct L j) (
       have hsb' : Steps L whole (pre.length + ci.length) sa
           (pre.length + ci.length + c1.length + 1 + cb.length + 1 + cu.length + c2.length) sb := hsb.cast (by len_arith) rfl
       simp only [semFor, hev', Bool.false_eq_true, if_false, Option.some.injEq, Prod.mk.injEq, true_and] at h
-      exact ⟨sb, (hsa.trans hsb').trans (hlast sb), by rw [hmb, hmema, h], trivial, by rw [hspb, hspa]⟩
+      exact ⟨sb, (hsa.trans hsb').trans (hlast sb), by rw [hmb, hmema]; exact h, trivial, by rw [hspb, hspa]⟩
 
 
 
@@ -1208,18 +1208,18 @@ theorem scoped_norm (L : Layout) : ∀ (f : Nat) (m : SrcSt) (st : SStmt) (o : O
       simp only [Scoped] at hsc
       simp only [sem] at h
       split at h
-      · exact ih m t o h hsc
+      · exact ih _ t o h hsc
       · simp only [Option.some.injEq] at h; subst h; rfl
     | ifElse c t e =>
       simp only [Scoped, Bool.and_eq_true] at hsc
       simp only [sem] at h
       split at h
-      · exact ih m t o h hsc.1
-      · exact ih m e o h hsc.2
+      · exact ih _ t o h hsc.1
+      · exact ih _ e o h hsc.2
     | «while» c b =>
       simp only [sem] at h
       split at h
-      · cases hb : sem L f m b with
+      · cases hb : sem L f (condEff L m c) b with
         | none => simp [hb] at h
         | some ob =>
           obtain ⟨eb, m1⟩ := ob
@@ -1239,12 +1239,12 @@ theorem scoped_norm (L : Layout) : ∀ (f : Nat) (m : SrcSt) (st : SStmt) (o : O
         | norm =>
           simp only [hb] at h
           split at h
-          · exact ih m1 _ o h hsc
+          · exact ih _ _ o h hsc
           · simp only [Option.some.injEq] at h; subst h; rfl
         | cont =>
           simp only [hb] at h
           split at h
-          · exact ih m1 _ o h hsc
+          · exact ih _ _ o h hsc
           · simp only [Option.some.injEq] at h; subst h; rfl
     | «for» i c u b =>
       simp only [sem] at h
